@@ -909,6 +909,12 @@ func (vm *VirtualMachine) callFunction(
 
 	// Evaluate the function code then return the result from TOS
 	if err := vm.eval(ctx); err != nil {
+		// Discard the operands of the interrupted expression. Otherwise the
+		// resumed frame would mistake the topmost one for a result and keep it.
+		for i := vm.sp; i > baseSP; i-- {
+			vm.stack[i] = nil
+		}
+		vm.sp = baseSP
 		return nil, err
 	}
 	return vm.pop(), nil
